@@ -61,7 +61,9 @@ func (st *State) call(f *Frame, ins ssa.Instruction, cc *ssa.CallCommon, opts *c
 		}
 		all := append([]Value{recv}, args...)
 		if c != nil {
+			st.calleePkgs = st.eng.implementerPkgs(cc.Method)
 			res := st.applyContract(f, ins, c, nil, cc.Method.Type().(*types.Signature), all, cc.Method.Name(), ord)
+			st.calleePkgs = nil
 			setResult(res)
 			return nil
 		}
@@ -70,6 +72,7 @@ func (st *State) call(f *Frame, ins ssa.Instruction, cc *ssa.CallCommon, opts *c
 			return nil
 		}
 		st.frameCheckEntry(ins, modEntry{kind: "all"}, "frame:unknown-"+ord)
+		st.calleePkgs = st.eng.implementerPkgs(cc.Method)
 		st.havocAll("call of interface method " + cc.Method.FullName() + " (no contract)")
 		setResult(st.freshResult(cc.Method.Name(), resT))
 		return nil
@@ -117,7 +120,9 @@ func (st *State) call(f *Frame, ins ssa.Instruction, cc *ssa.CallCommon, opts *c
 	}
 	callee := fnv.Fn
 	if c := st.eng.fnContract[callee]; c != nil && !c.Inline {
+		st.calleePkgs = []string{fnPkgPath(callee)}
 		res := st.applyContract(f, ins, c, callee, callee.Signature, args, shortName(callee), ord)
+		st.calleePkgs = nil
 		setResult(res)
 		return nil
 	}
@@ -168,9 +173,23 @@ func (st *State) call(f *Frame, ins ssa.Instruction, cc *ssa.CallCommon, opts *c
 		}
 	}
 	st.frameCheckEntry(ins, modEntry{kind: "all"}, "frame:unknown-"+ord)
+	st.calleePkgs = []string{fnPkgPath(callee)}
 	st.havocAll("call of " + shortName(callee) + " (no contract, no body)")
 	setResult(st.freshResult(callee.Name(), resT))
 	return nil
+}
+
+func fnPkgPath(fn *ssa.Function) string {
+	for fn.Parent() != nil {
+		fn = fn.Parent()
+	}
+	if fn.Pkg != nil {
+		return fn.Pkg.Pkg.Path()
+	}
+	if fn.Object() != nil && fn.Object().Pkg() != nil {
+		return fn.Object().Pkg().Path()
+	}
+	return "?"
 }
 
 func shortName(fn *ssa.Function) string {
@@ -377,7 +396,30 @@ func (st *State) applyContract(f *Frame, ins ssa.Instruction, c *Contract, calle
 		for i, en := range ms.entries {
 			st.frameCheckEntry(ins, en, fmt.Sprintf("frame:call:%s@%s:%d", name, strings.TrimPrefix(ord, "call@"), i+1))
 		}
+		// preserved locations: remember, havoc, restore
+		type keep struct {
+			addr string
+			T    types.Type
+			v    Value
+		}
+		var keeps []keep
+		for _, p := range c.Preserves {
+			func() {
+				defer func() {
+					if r := recover(); r != nil {
+						if _, ok := r.(specErr); !ok {
+							panic(r)
+						}
+					}
+				}()
+				addr, T := st.evalAddr(p, env)
+				keeps = append(keeps, keep{addr, T, st.loadH(st.heap, addr, T)})
+			}()
+		}
 		st.havocModset(ms)
+		for _, k := range keeps {
+			st.storeMem(k.addr, k.T, k.v)
+		}
 	}
 	if !c.Pure {
 		nt := st.fresh("top", SInt)
@@ -603,8 +645,7 @@ func (st *State) havocModset(ms *modSet) {
 			if s == "" {
 				for _, g := range st.eng.cs.Ghosts {
 					if "ghost_"+g.Name == en.name {
-						env := &specEnv{st: st}
-						_, s = st.resolveSpecType(g.Type, env)
+						_, s = st.ghostType(g)
 					}
 				}
 			}
